@@ -164,6 +164,35 @@ func prevChain(n int) []byte {
 	return b.Bytes()
 }
 
+// prevCycle: n incremental updates whose /Prev entries are ten digits wide; afterwards the /Prev of the section
+// `from` (0 = oldest update) is pointed at the section `to`: to > from closes a cycle that does not pass through
+// the same offset twice in a row (a chain that only remembers the previous offset never notices).
+func prevCycle(n, from, to int) []byte {
+	base := rawPDF(map[int]string{
+		1: "<< /Type /Catalog /Pages 2 0 R >>",
+		2: "<< /Type /Pages /Kids [3 0 R] /Count 1 >>",
+		3: "<< /Type /Page /Parent 2 0 R /MediaBox [0 0 612 792] /Resources << /Font << /F1 4 0 R >> >> /Contents 5 0 R >>",
+		4: helv,
+		5: stream("", "BT /F1 12 Tf 72 700 Td (base) Tj ET"),
+	}, 1)
+	b := bytes.NewBuffer(base)
+	prev := bytes.LastIndex(base, []byte("\nxref\n")) + 1
+	var xoff, prevPos []int
+	for i := 0; i < n; i++ {
+		off := b.Len()
+		fmt.Fprintf(b, "5 0 obj\n%s\nendobj\n", stream("", fmt.Sprintf("BT /F1 12 Tf 72 700 Td (rev%d) Tj ET", i)))
+		x := b.Len()
+		fmt.Fprintf(b, "xref\n5 1\n%010d 00000 n \ntrailer\n<< /Size 6 /Root 1 0 R /Prev ", off)
+		prevPos = append(prevPos, b.Len())
+		fmt.Fprintf(b, "%010d >>\nstartxref\n%d\n%%%%EOF\n", prev, x)
+		xoff = append(xoff, x)
+		prev = x
+	}
+	out := b.Bytes()
+	copy(out[prevPos[from]:], fmt.Sprintf("%010d", xoff[to]))
+	return out
+}
+
 func TestAmplificationCatalogue(t *testing.T) {
 	n := runCatalogue(t, func(emit emitFn) {
 		add := func(name string, build func() []byte) { emit("file", ".pdf", "amplification: "+name, build) }
@@ -184,6 +213,10 @@ func TestAmplificationCatalogue(t *testing.T) {
 				where := where
 				add(fmt.Sprintf("array/dictionary DAG depth %d fan-out %d below %s", g[0], g[1], where), func() []byte { return resolveDAG(g[0], g[1], where) })
 			}
+		}
+		for _, c := range [][3]int{{2, 0, 1}, {3, 0, 2}, {3, 1, 2}, {5, 0, 4}, {5, 2, 3}, {6, 1, 4}, {40, 0, 39}, {40, 17, 30}} {
+			c := c
+			add(fmt.Sprintf("%d incremental updates, the /Prev of update %d names update %d (a cycle of length %d)", c[0], c[1], c[2], c[2]-c[1]+1), func() []byte { return prevCycle(c[0], c[1], c[2]) })
 		}
 		for _, k := range []int{2000, 20000} {
 			k := k
